@@ -1,2 +1,2 @@
 (* C15 — proofs: collected. *)
-From Yv Require Export C15.ProofsA C15.ProofsR C15.ProofsB5 C15.ProofsB6 C15.ProofsQ C15.Examples.
+From Yv Require Export C15.ProofsA C15.ProofsR C15.ProofsB5 C15.ProofsB6 C15.ProofsQ C15.ProofsO4 C15.ProofsO5 C15.ProofsT C15.Examples.
